@@ -9,6 +9,7 @@
   D5 default flags come from detection only
   D6 the override variable the code reads is the documented one
   D7 the override cannot return a target that is not executable; its copy is freed
+D8 a detected feature bit is cleared only under the user's "-feature" switch or below the cpuid leaf that reports it
 """
 import re
 
@@ -358,3 +359,48 @@ def run(ctx):
                   "the override can make orc_target_get_default return `%s` without testing ->executable: orc_program_compile would install code for a backend this CPU cannot run" % p,
                   line=r.line)
     rep.floor("D7-OVERRIDE-EXEC", 1)
+
+    # ---- D8: a detected feature is withdrawn only on request or for lack of its cpuid leaf ------------
+    # Every statement that clears a feature bit in the detected flag words must be guarded by the user's explicit switch
+    # (orc_compiler_flag_check ("-<feature>")), or by a test of the maximum cpuid level that admits only levels BELOW the
+    # leaf the feature is reported in (finite evaluation of the guard over levels 0..16).
+    from exprval import admitted as _adm8, variables as _vars8
+    tu8 = db.tu("orccpu-x86")
+    flagnames = {}
+    for t8 in db.tus.values():
+        for k8, v8 in t8.enums.items():
+            if k8.startswith("ORC_TARGET_") and k8 in NEEDS:
+                flagnames.setdefault(v8, set()).add(k8)
+    n8 = 0
+    for f in tu8.main_functions():
+        fc8 = None
+        for st in f.walk():
+            if not (st.k == "CompoundAssignOperator" and st.op == "&=" and access_path(st.c[0]) in ("orc_x86_sse_flags", "orc_x86_mmx_flags")):
+                continue
+            mv = strip_casts(st.c[1]).v
+            if mv is None:
+                raise AnalysisBroken("%s: non-constant mask in `%s`" % (f.name, unparse(st)))
+            cleared = (~mv) & 0xffffffff
+            word = "SSE" if "sse" in access_path(st.c[0]) else "MMX"
+            names = sorted(n_ for bit in range(32) if cleared >> bit & 1 for n_ in flagnames.get(1 << bit, ()) if ("_MMX_" in n_) == (word == "MMX"))
+            if not names:
+                continue
+            n8 += 1
+            fc8 = fc8 or Facts(f)
+            conds = fc8.conds(st)
+            requested = any(x[0] != "switch" and strip_casts(x[0]).k == "CallExpr" and strip_casts(x[0]).name == "orc_compiler_flag_check" and x[1] is True
+                            for x in conds)
+            lvl_ok = False
+            lv = sorted({v for x in conds if x[0] != "switch" for v in _vars8(x[0]) if v.endswith("level")})
+            if len(lv) == 1 and not requested:
+                got, rel = _adm8(conds, (lv[0],), range(0, 17))
+                leaf = max(REF[a][0] for n_ in names for alt in NEEDS[n_][:1] for a in alt if a in REF and REF[a][0] < 0x80000000)
+                lvl_ok = bool(rel) and all(g[0] < leaf for g in got)
+            rep.check(requested or lvl_ok, "D8-CLEAR-ON-REQUEST", where(f), "clear:%s" % "+".join(n_.replace("ORC_TARGET_", "") for n_ in names),
+                      "feature bit withdrawn only on the user's switch or below its cpuid leaf",
+                      "%s clears %s under %s: a CPU that reports the feature truthfully loses it (and the best backend it supports) without "
+                      "having been asked to" % (f.name, names, [unparse(x[0]) + ("" if x[1] else " [false]") for x in conds if x[0] != "switch"]), line=st.line)
+    if n8 < 8:
+        raise AnalysisBroken("only %d feature-clearing statements found in orccpu-x86.c" % n8)
+
+
